@@ -34,7 +34,8 @@ run)
   for p in $PROPS; do
     (cd $LAB/verif && ./check $p > $LAB/${ID}_${p}.out 2>&1); rc=$?
     echo "== $p rc=$rc" >> $D/result.txt
-    grep -E "^(VIOLATION|OK|TOOL-ERROR|KNOWN-FINDING|SPEC-DRIFT|  clause)" $LAB/${ID}_${p}.out | sed 's/replay=[^ ]*//' | sort | uniq -c | sort -rn | head -8 >> $D/result.txt
+    grep -E "^(VIOLATION|OK|TOOL-ERROR|KNOWN-FINDING|  clause)" $LAB/${ID}_${p}.out | sed 's/replay=[^ ]*//' | sort | uniq -c | sort -rn | head -8 >> $D/result.txt
+    grep -E "^SPEC-DRIFT" $LAB/${ID}_${p}.out | sort | uniq -c | sort -rn | head -4 >> $D/result.txt
   done
   git -C $LAB/repo checkout -q -- . && git -C $LAB/repo clean -fdq
   cat $D/result.txt
